@@ -130,6 +130,16 @@ class MessagePackDocument(HierDictDocument):
             return int(value)
         return value
 
+    def _ret_integer(self, cls, value):
+        value = self._ret_number(cls, value)
+        if isinstance(value, float):
+            # 2.0 and 2e3 do denote integers, 2.5, inf and nan don't.
+            if value != value or value in (float('inf'), float('-inf')) \
+                                                or value != int(value):
+                raise ValidationError(value)
+            return int(value)
+        return value
+
     def _ret_bool(self, _, value):
         # "1 in (True, False)" holds as well, hence the identity tests
         if value is None or value is True or value is False:
@@ -192,7 +202,7 @@ class MessagePackDocument(HierDictDocument):
                                                 .integer_from_bytes(cls, value)
 
         # same rules as the other dict-based protocols
-        return self._ret_number(cls, value)
+        return self._ret_integer(cls, value)
 
     def integer_to_bytes(self, cls, value, **_):
         # if it's inside the range msgpack can deal with
